@@ -23,7 +23,9 @@ def plain(ir):
             if k == "default":
                 out[k] = enc(x)
             elif k == "x_typ":
-                out[k] = json.loads(json.dumps(x, default=repr))
+                out[k] = json.loads(json.dumps(x, default=lambda o: ast.dump(o) if isinstance(o, ast.AST) else repr(o)))
+            elif isinstance(x, ast.AST):
+                out[k] = ast.dump(x)
             else:
                 out[k] = x
         return out
